@@ -212,6 +212,60 @@ fn seeds() -> Vec<(&'static str, Prog)> {
     v
 }
 
+/// error paths of the expansion: a valid generated program plus ONE construct the reference semantics
+/// rejects (or, for the control group, accepts); rooc must reject exactly when the reference does
+fn fault_cases(r: &mut Rng, n: usize) -> Vec<Case> {
+    let kinds = ["access-out-of-range", "division-by-zero", "integer-overflow", "duplicate-constant", "reserved-constant", "shadowed-iteration-variable", "shadowed-constant",
+        "undeclared-bound", "destructure-too-many", "iterate-a-number", "fractional-range-end", "len-of-number", "index-a-number", "string-in-expression", "negative-index",
+        "control:in-range", "control:sibling-scopes", "control:empty-range", "control:destructure-fewer"];
+    let mut out = vec![];
+    for i in 0..n {
+        let kind = kinds[i % kinds.len()];
+        let mut rr = r.fork();
+        let mut g = ProgGen::new(&mut rr, GenCfg { graphs: i % 2 == 0, logic: false, errors: false });
+        let mut p = g.program();
+        let fz = Decl { vars: vec![VarName::Simple("fz".into())], ty: DomT::Real(None), iters: vec![] };
+        p.decls.push(fz);
+        p.consts.push(("FA".into(), E::Lit(V::Arr(vec![V::Int(4), V::Int(5), V::Int(6)]))));
+        let ge = |lhs: E, iters: Vec<It>| Cons { name: None, lhs, rel: Some((">=".into(), int(1))), iters };
+        let acc = |ix: E| bin(Op::Mul, E::Acc("FA".into(), vec![ix]), id("fz"));
+        let sum = |its: Vec<It>, body: E| E::Scp("sum".into(), its, Box::new(body));
+        match kind {
+            "access-out-of-range" => p.cons.push(ge(acc(id("fi")), vec![it1("fi", range(int(0), int(3), true))])),
+            "negative-index" => p.cons.push(ge(acc(bin(Op::Sub, id("fi"), int(1))), vec![it1("fi", range(int(0), int(2), false))])),
+            "division-by-zero" => p.consts.push(("FB".into(), bin(Op::Div, int(1), bin(Op::Sub, int(2), int(2))))),
+            "integer-overflow" => p.consts.push(("FB".into(), bin(Op::Mul, E::Lit(V::Int(i64::MAX)), int(2)))),
+            "duplicate-constant" => p.consts.push(("FA".into(), int(1))),
+            "reserved-constant" => p.consts.push(("len".into(), int(1))),
+            "shadowed-iteration-variable" => p.cons.push(ge(sum(vec![it1("fi", range(int(0), int(2), false)), it1("fi", range(int(0), int(2), false))], acc(id("fi"))), vec![])),
+            "shadowed-constant" => p.cons.push(ge(acc(id("FA")), vec![it1("FA", range(int(0), int(2), false))])),
+            "undeclared-bound" => p.cons.push(ge(sum(vec![it1("fi", range(int(0), id("nope"), false))], acc(id("fi"))), vec![])),
+            "destructure-too-many" => p.cons.push(ge(sum(vec![itn(&["fa", "fb", "fc"], call("enumerate", vec![id("FA")]))], bin(Op::Mul, id("fa"), id("fz"))), vec![])),
+            "iterate-a-number" => p.cons.push(ge(acc(int(0)), vec![it1("fi", int(5))])),
+            "fractional-range-end" => p.cons.push(ge(sum(vec![it1("fi", range(int(0), num(1.5), false))], acc(id("fi"))), vec![])),
+            "len-of-number" => p.cons.push(ge(sum(vec![it1("fi", range(int(0), call("len", vec![int(3)]), false))], acc(id("fi"))), vec![])),
+            "index-a-number" => { p.consts.push(("FN".into(), int(3))); p.cons.push(ge(bin(Op::Mul, E::Acc("FN".into(), vec![int(0)]), id("fz")), vec![])) }
+            "string-in-expression" => { p.consts.push(("FS".into(), E::Lit(V::Str("a".into())))); p.cons.push(ge(bin(Op::Mul, id("FS"), id("fz")), vec![])) }
+            "control:in-range" => p.cons.push(ge(acc(id("fi")), vec![it1("fi", range(int(0), int(2), true))])),
+            "control:sibling-scopes" => p.cons.push(ge(bin(Op::Add, sum(vec![it1("fi", range(int(0), int(2), false))], acc(id("fi"))), sum(vec![it1("fi", range(int(1), int(3), false))], acc(id("fi")))), vec![])),
+            "control:empty-range" => p.cons.push(ge(bin(Op::Add, id("fz"), sum(vec![it1("fi", range(int(2), int(2), false))], acc(id("fi")))), vec![])),
+            _ => p.cons.push(ge(sum(vec![itn(&["fa"], call("enumerate", vec![id("FA")]))], bin(Op::Mul, id("fa"), id("fz"))), vec![])),
+        }
+        let mut tags = vec![format!("fault:{}", kind)];
+        tags.push(if kind.starts_with("control:") { "fault-group:control".into() } else { "fault-group:fault".to_string() });
+        let mut c = check_program(&p, tags, "faults");
+        // the control group must compile, the fault group must not
+        let rejected = c.tags.iter().any(|t| t.starts_with("both-reject:") || t == "reference-rejects");
+        let no_text = c.tags.iter().any(|t| t.starts_with("no-text:"));
+        if kind.starts_with("control:") == rejected && c.impl_violation.is_none() && !no_text {
+            c.impl_violation = Some(format!("fault stream: `{}` was {}", kind, if rejected { "rejected" } else { "accepted by both rooc and the reference" }));
+            c.sig = Some("fault-stream-expectation".into());
+        }
+        out.push(c);
+    }
+    out
+}
+
 pub fn generate(seed: u64, n: usize, thorough: bool, _corpus: Option<&str>) -> Vec<Case> {
     let mut r = Rng::new(crate::pre_gen::spread_seed(seed));
     let mut cases = vec![];
@@ -225,7 +279,11 @@ pub fn generate(seed: u64, n: usize, thorough: bool, _corpus: Option<&str>) -> V
         let tags = g.tags.clone();
         cases.push(check_program(&p, tags, if graphs { "random+graphs" } else { "random" }));
     }
+    cases.extend(fault_cases(&mut r, if thorough { 1900 } else { 190 }));
     cases.extend(crate::pre_expand::model_cases(&mut r, if thorough { 4000 } else { 400 }));
+    cases.extend(crate::pre_expand::graph_cases(&mut r, if thorough { 400 } else { 40 }));
+    cases.extend(crate::pre_expand::svset_cases(&mut r, if thorough { 1500 } else { 150 }));
+    cases.extend(crate::pre_expand::program_cases(&mut r, if thorough { 3000 } else { 500 }));
     cases.extend(crate::pre_expand::fragment_cases(&mut r, if thorough { 6000 } else { 500 }));
     let _ = Exp::Number(0.0);
     cases
